@@ -94,6 +94,17 @@ def N1_timestamp_before_scan(ctx):
            '; '.join(f'{site(f, e)} read `{short(e.d["callee"])}` not preceded by logical_timestamp()' for _, e in bad_order[:3]),
            site=site(f, bad_order[0][1]) if bad_order else f.loc(f.b['lo']),
            what='a validation whose timestamp is taken after (part of) the scan can carry a tick newer than a rewind whose writes it did not see; finality then accepts a stale validation')
+    # the tick is taken while TS[txid] is held (liveness: a claimer that finds the tx Validating drops its
+    # claim; that is only sound if the validator's tick is ordered after the claim, i.e. taken under the lock)
+    bad_lock = []
+    for p in ps:
+        for e in calls(p, 'SchedulerContext::logical_timestamp'):
+            held = ts_guard_index(e)
+            if not any(is_field(h, 'TxVersion.txid') for h in held):
+                bad_lock.append(e)
+    ctx.ob('N1', f, 'tick-under-transaction-lock', not bad_lock, '; '.join(site(f, e) for e in bad_lock[:3]),
+           site=site(f, bad_lock[0]) if bad_lock else f.loc(f.b['lo']),
+           what='next() drops a re-issued validation claim when it finds the transaction Validating; if the owner took its timestamp before locking TS[txid], a rewind in between leaves the transaction Unconfirmed with a timestamp older than the rewind and nobody validates it again (stall)')
     ctx.ob('N1', f, 'stored-timestamp-is-the-tick', not bad_arg,
            '; '.join(f'{site(f, e)} unconfirmed(…, {show(e.d["args"][2]) if len(e.d["args"])>2 else "?"})' for _, e in bad_arg[:3]),
            site=site(f, bad_arg[0][1]) if bad_arg else f.loc(f.b['lo']),
